@@ -77,7 +77,11 @@ func genLines(r *Rng, now Now) (int, []FileLine) {
 	return -1, nil
 }
 
-func caseLines(k int, ls []FileLine) (Case, error) {
+// caseLines reads the file; seek >= 0: after the last line SetStreamPos goes back to the start of line `seek` (the position
+// GetStreamPos reported there) and the rest is read again: the parser's detection state survives the seek, so the records are
+// dated as if those lines were appended to the file (which is what K and the oracle are given).
+func caseLines(k int, ls0 []FileLine, seek int) (Case, error) {
+	ls := ls0
 	dir := TempDir("c20lines")
 	defer os.RemoveAll(dir)
 	fn := filepath.Join(dir, "app.log")
@@ -91,6 +95,10 @@ func caseLines(k int, ls []FileLine) (Case, error) {
 	var texts []string
 	var dates []time.Time
 	var perr error
+	var posViol *Violation
+	if _, err := parser.NewLineParser(filepath.Join(dir, "no-such-file.log"), date.NewDefaultParser(), 4096); err == nil {
+		posViol = &Violation{Class: "collector-line-parser-opens-missing-file", Detail: "NewLineParser on a missing file returned no error"}
+	}
 	now := withNow(func() {
 		texts, dates, perr = nil, nil, nil
 		lp, err := parser.NewLineParser(fn, date.NewDefaultParser(), 4096)
@@ -99,21 +107,53 @@ func caseLines(k int, ls []FileLine) (Case, error) {
 			return
 		}
 		defer lp.Close()
-		for {
-			rec, err := lp.NextRecord(context.Background())
-			if err == io.EOF {
-				break
+		pos := []int64{lp.GetStreamPos()}
+		readAll := func() bool {
+			for {
+				rec, err := lp.NextRecord(context.Background())
+				if err == io.EOF {
+					return true
+				}
+				if err != nil {
+					perr = err
+					return false
+				}
+				texts = append(texts, string(rec.Data))
+				dates = append(dates, rec.Date)
+				pos = append(pos, lp.GetStreamPos())
 			}
-			if err != nil {
+		}
+		if !readAll() {
+			return
+		}
+		// the stream position after record i is the number of bytes of the lines read so far
+		want := int64(0)
+		for i, l := range ls0 {
+			if pos[i] != want && posViol == nil {
+				posViol = &Violation{Class: "collector-line-stream-pos", Detail: fmt.Sprintf("before line %d GetStreamPos() = %d, the lines before it have %d bytes", i, pos[i], want)}
+			}
+			want += int64(len(l.Text) + 1)
+		}
+		st := lp.GetStats()
+		if total, _, _ := st.FmtStats.Count(); posViol == nil && (total != int64(len(ls0)) || st.FileStats.Pos != lp.GetStreamPos() || st.FileStats.Size != int64(len(data))) {
+			posViol = &Violation{Class: "collector-line-stats", Detail: fmt.Sprintf("GetStats after %d lines of %d bytes: %d hits, pos %d, size %d", len(ls0), len(data), total, st.FileStats.Pos, st.FileStats.Size)}
+		}
+		if seek >= 0 && seek < len(ls0) {
+			if err := lp.SetStreamPos(pos[seek]); err != nil {
 				perr = err
 				return
 			}
-			texts = append(texts, string(rec.Data))
-			dates = append(dates, rec.Date)
+			if lp.GetStreamPos() != pos[seek] && posViol == nil {
+				posViol = &Violation{Class: "collector-line-stream-pos", Detail: fmt.Sprintf("SetStreamPos(%d), GetStreamPos() = %d", pos[seek], lp.GetStreamPos())}
+			}
+			readAll()
 		}
 	})
 	if perr != nil {
 		return Case{}, perr
+	}
+	if seek >= 0 && seek < len(ls0) {
+		ls = append(append([]FileLine{}, ls0...), ls0[seek:]...)
 	}
 	if len(texts) != len(ls) {
 		return Case{}, fmt.Errorf("lines: %d records for %d lines", len(texts), len(ls))
@@ -142,7 +182,11 @@ func caseLines(k int, ls []FileLine) (Case, error) {
 		run = 0
 		es, en := fi.expected(*l.Civil, now)
 		if !dates[i].IsZero() && dates[i].Unix() == es && int64(dates[i].Nanosecond()) == en {
-			maxRun = 0
+			// the right date; it shows that the parser looked at the line unless it is also the date of the record before
+			// (a skipping parser hands out the last detected date: the same lines read again after a seek coincide with it)
+			if i == 0 || !dates[i].Equal(dates[i-1]) {
+				maxRun = 0
+			}
 			continue
 		}
 		got := "no date"
@@ -160,6 +204,9 @@ func caseLines(k int, ls []FileLine) (Case, error) {
 		viol = &Violation{Class: "collector-line-wrong-date", Detail: det + fmt.Sprintf(" (at most %d lines without a date in a row since the last correctly dated line)", maxRun)}
 		break
 	}
-	return Case{Coq: GApp("KLines", gNow(now), GListStr(texts), GList(obs)), Replay: Replay{Kind: "lines", K: k, Lines: ls},
-		NonTrivial: true, Stream: "lines", Oracle: viol, Tags: []string{fmt.Sprintf("lines-skipped:%v", skipped)}}, nil
+	if viol == nil {
+		viol = posViol
+	}
+	return Case{Coq: GApp("KLines", gNow(now), GListStr(texts), GList(obs)), Replay: Replay{Kind: "lines", K: k, Lines: ls0, Seek: seek + 1},
+		NonTrivial: true, Stream: "lines", Oracle: viol, Tags: []string{fmt.Sprintf("lines-skipped:%v", skipped), fmt.Sprintf("lines-seek:%v", seek >= 0)}}, nil
 }
